@@ -343,7 +343,10 @@ pub fn observe(chain: &Chain, names: &Names) -> Obs {
     }
 
     let mut cw20 = BTreeMap::new();
-    for t in &names.cw20s {
+    for (i, t) in names.cw20s.iter().enumerate() {
+        if names.sloppy20[i] {
+            continue;
+        }
         let st = CStore::new(chain, t);
         for r in cw20_base::state::BALANCES.range(&st, None, None, Order::Ascending) {
             let (a, v) = r.expect("observe: cw20 balance decode");
